@@ -222,7 +222,13 @@ def _clash_ops(name, full=False):
     step(lambda: box["plain"])
     step(lambda: box["u"].bind(c=True))
     # exports of the function so named; the function object itself must stay what it was (name included)
-    fp0 = json.dumps(purity.fingerprint(box["plain"]), default=str) if "plain" in box else None
+    def fp_plain():
+        try:
+            return json.dumps(purity.fingerprint(box["plain"]), default=str)
+        except Exception as e:  # observing the object fails: a result like any other
+            return "observing the function raised " + type(e).__name__
+
+    fp0 = fp_plain() if "plain" in box else None
     for fw, mode in (("qiskit", "gate"), ("qiskit", "circuit"), ("qasm", "gate"), ("qasm", "circuit"), ("sympy", "circuit"), ("cirq", "circuit"), ("qiskit", "gate")):
         def ex(fw=fw, mode=mode):
             x = box["plain"]
@@ -241,7 +247,7 @@ def _clash_ops(name, full=False):
         else:
             step(ex)
         if fp0 is not None:
-            out.append({"frame": "unchanged"} if json.dumps(purity.fingerprint(box["plain"]), default=str) == fp0 else {"frame": "function object changed by export " + fw + ":" + mode})
+            out.append({"frame": "unchanged"} if fp_plain() == fp0 else {"frame": "function object changed by export " + fw + ":" + mode})
     return out + [{"texts": texts}] if full else out
 
 
